@@ -16,6 +16,7 @@ import (
 	"os/exec"
 	"path/filepath"
 	"regexp"
+	"runtime"
 	"runtime/debug"
 	"sort"
 	"strconv"
@@ -83,8 +84,26 @@ func main() {
 // ------------------------------------------------------------------------------------------
 // worker
 
+// memoryWatchdog ends the worker when its heap explodes (a runaway re-creation under a defective
+// tree can allocate tens of GB before any logical budget fires). Exit code 77 is attributed by the
+// parent to the case in progress.
+func memoryWatchdog(limit uint64) {
+	go func() {
+		var ms runtime.MemStats
+		for {
+			time.Sleep(100 * time.Millisecond)
+			runtime.ReadMemStats(&ms)
+			if ms.HeapAlloc > limit {
+				fmt.Fprintf(os.Stderr, "MEMORY WATCHDOG: heap %d MB exceeds %d MB\n", ms.HeapAlloc>>20, limit>>20)
+				os.Exit(77)
+			}
+		}
+	}()
+}
+
 func worker(jobFile string) int {
 	world.InstallQuietLogger()
+	memoryWatchdog(uint64(envInt("VERIF_WORKER_HEAP_MB", 2048)) << 20)
 	b, err := os.ReadFile(jobFile)
 	if err != nil {
 		fmt.Fprintln(os.Stderr, err)
